@@ -1246,6 +1246,64 @@ def resolve_conds(body, conds):
     return out
 
 
+def _truthy(v):
+    """does the decision `v` say "the tested bool is true"? True / False / None (not a bool test)"""
+    if isinstance(v, tuple):
+        return True if set(v[1]) == {0} else None
+    if set(v) == {0}:
+        return False
+    if set(v) == {1}:
+        return True
+    return None
+
+
+def implied(body, d, v, depth=0):
+    """Atoms implied by the branch decision (d, v): the decision itself, and - when d is a bool that was merged from
+    several definitions (`let ok = match x { Some(t) => !t.has(k), None => false }; if ok { .. }`) and only one of them can
+    have the tested truth value - the conditions of that definition and what its value implies in turn. `!c` is unfolded."""
+    out = [(d, v)]
+    if depth > 6:
+        return out
+    t = _truthy(v)
+    if t is None:
+        return out
+    x = d
+    while x[0] in ('ref', 'deref') or (x[0] == 'call' and is_transparent(x[1]) and x[2]):
+        x = x[1] if x[0] in ('ref', 'deref') else x[2][0]
+    if x[0] == 'unop' and x[1] == 'Not':
+        out += implied(body, x[2], frozenset({0}) if t else ('else', frozenset({0})), depth + 1)
+    elif x[0] == 'phi':
+        b2 = body.facts.bodies.get(x[5], body) if len(x) > 5 and x[5] else body
+        sub = x[6] if len(x) > 6 else None
+        feas = []
+        for br, where in zip(x[2], x[4]):
+            b0 = br
+            while b0[0] in ('ref', 'deref'):
+                b0 = b0[1]
+            if b0[0] == 'const' and isinstance(b0[2], bool) and b0[2] != t:
+                continue
+            feas.append((br, where))
+        if len(feas) == 1:
+            br, where = feas[0]
+            for (_, d2, v2) in phi_branch_conditions(b2, where):
+                if sub is not None:
+                    d2 = subst_args(d2, sub)
+                out += implied(body, *norm_cond(d2, v2), depth=depth + 1)
+            out += implied(body, br, ('else', frozenset({0})) if t else frozenset({0}), depth + 1)
+    return out
+
+
+def implied_conds(body, bid):
+    """cond_str of every atom implied by the decisions that dominate block bid (deep rendering)"""
+    out = []
+    for (_, d, v) in body.conditions(bid):
+        for d2, v2 in implied(body, *norm_cond(d, v)):
+            t = cond_str(d2, v2)
+            if t not in out:
+                out.append(t)
+    return out
+
+
 def cond_str(d, v):
     if isinstance(v, tuple):
         return '%s!=%s' % (render(d), sorted(v[1]))
